@@ -379,6 +379,18 @@ def check(ctx, rep):
             elif d == ("Eq", want[1], I(0)) and len(tg) == 1 and tg[0][0] == 0:
                 mark_ok = True
                 small_t, large_t = sw[0][1]["otherwise"], tg[0][1]
+        if not mark_ok and len(sw) == 1 and len(sw[0][1]["targets"]) == 1 and sw[0][1]["targets"][0][0] == 0:
+            # another spelling of the same test on the byte (`b0 >= 0x80`, `b0 >> 7 == 1`,
+            # `b0 & 0x80 == 0x80` ...): decided over the 256 values of the byte - the test is
+            # evaluated as a term for each of them and must hold exactly for 0x80..=0xFF
+            ts = util.byte_predicate_true_set(sw[0][1]["discr"], lambda t_: arith.norm(t_, env) == ("idx", S("D"), I(0)))
+            tg = sw[0][1]["targets"]
+            if ts == set(range(MARK, 256)):
+                mark_ok = True
+                large_t, small_t = sw[0][1]["otherwise"], tg[0][1]
+            elif ts == set(range(0, MARK)):
+                mark_ok = True
+                small_t, large_t = sw[0][1]["otherwise"], tg[0][1]
         rep.check(mark_ok, "decoder", fa, "marker-test", "long form iff decrypted byte 0 has bit 0x80", "marker test is not `b0 & 0x80 != 0`: %s" % (arith.show(arith.norm(sw[0][1]["discr"], env)) if sw else "no branch"), ab.loc())
         if mark_ok:
             rk = [(bb, key) for (bb, key) in sa.phi_inputs if key == ("local", 0) and bb != "ret"]
